@@ -82,6 +82,7 @@ func genC02(t *rapid.T) C02Case {
 	fixEmptyLists(tree)
 	u := UniverseFor(t, tree, rapid.IntRange(0, 4).Draw(t, "collide") == 0)
 	u.Stateless = drawStateless(t)
+	operatorLikeNames(t, tree, u)
 	c := C02Case{U: *u}
 	switch rapid.IntRange(0, 7).Draw(t, "rawkind") {
 	case 0:
